@@ -461,6 +461,7 @@ type Other { title: String }`
 	interruptedRetryScenario(e, basePort+2*nScen+14)
 	crashDuringRetryScenario(e, basePort+2*nScen+18)
 	routingHistories(e, basePort+2*nScen+24)
+	failureDuringRetryMarkScenario(e, basePort+2*nScen+22)
 	e.writeCasesSharded("cases_C15", "CorrC15", "replcase", cases, 300)
 }
 
